@@ -102,7 +102,7 @@ TP_SRC_BY_CLASS = {}
 def dump_sub(sn, point, methods, want_solution=True):
     from lcapy.cexpr import ConstantDomainExpression
     mna = sn.mna
-    out = {'kind': str(sn.kind), 'ac': not isinstance(sn.kind, str), 'node_list': list(sn.node_list), 'solver_method': str(sn.solver_method),
+    out = {'kind': str(sn.kind), 'ac': not isinstance(sn.kind, str), 'noise': isinstance(sn.kind, str) and sn.kind[0] == 'n' and sn.kind[1:].isdigit(), 'node_list': list(sn.node_list), 'solver_method': str(sn.solver_method),
            'node_index': {str(n): int(mna._node_index(n)) for n in sn.nodes},
            'unknown_branch_currents': list(mna.unknown_branch_currents),
            'extra_branch_currents': list(mna.extra_branch_currents)}
@@ -218,6 +218,8 @@ def run(case):
     point['__eps__'] = sp.Rational(case.get('eps', '1/7'))
     # resistive circuits are analysed in the time domain: evaluate at an instant t0 > 0 (u(t0) = 1)
     point['t'] = sp.Rational(case.get('t0', '3/2'))
+    # noise analyses are functions of the angular frequency: evaluate at omega = w0 (Gaussian rationals)
+    point['omega'] = sp.Rational(case.get('w0', '2'))
     if case.get('solver'):
         c.solver_method = case['solver']
     res = {'kinds': {}}
